@@ -262,6 +262,8 @@ def conclude(pid, chk, tier, recs, wall, build_s):
         elif t == 'viol':
             viols.append(r)
     nstates = sum(len(s) for s in states.values())
+    if not nstates:     # harnesses that count states themselves (too many to ship as hashes)
+        nstates = sum(v for k, v in counters.items() if k.endswith(':states'))
     # classify
     known_hit = collections.OrderedDict()
     unknown = collections.OrderedDict()
